@@ -10,6 +10,7 @@ C11 driver.  One line = one fault script of a server batch plus what the real
 -/
 import ConfModel.Driver.Common
 import ConfModel.Driver.OSCmd
+import ConfModel.Driver.C11InProc
 import ConfModel.Spec.ServerRunner
 namespace ConfModel.Driver.C11
 open Lean ConfModel.Driver ConfModel.ServerRunner
@@ -47,6 +48,7 @@ def pairs (j : Json) : List (String × String) :=
 def handle : Handler := fun op inp impl =>
   match op with
   | "oscmd" => ConfModel.Driver.OSCmd.judgeServer inp impl
+  | "inproc" => ConfModel.Driver.C11InProc.handle inp impl
   | "batch" =>
     let names := strList (field inp "names")
     let n := names.length
